@@ -117,7 +117,7 @@ struct Explicit
     for (size_t b = 0; b < pr.P.size(); ++b)
       if (pr.subset_of(pr.bins[b]) == S)
         for (auto& e : pr.P[b])
-          s[(size_t)e.first] += e.second;
+          s[(size_t)e.first] += e.second * pr.nv[b];
     return s;
   }
   // A_S^T [ y / ybar ]
@@ -139,7 +139,7 @@ struct Explicit
     double L = 0;
     for (size_t b = 0; b < pr.P.size(); ++b)
       if (f[b] > 0)
-        L += (pr.yv[b] > 0 ? pr.yv[b] * std::log(f[b]) : 0.) - f[b];
+        L += (pr.yv[b] > 0 ? pr.yv[b] * std::log(pr.nv[b] * f[b]) : 0.) - pr.nv[b] * f[b];
     return L;
   }
 };
